@@ -949,3 +949,21 @@ pub fn gen_file_with_expanded_size(expanded: usize) -> Vec<u8> {
     }
     f
 }
+
+/// one fixed-Huffman block with more than 2^20 literal tokens (encoders that write the whole
+/// input as a single block do this), plus its plaintext
+pub fn gen_giant_block_stream(rng: &mut Rng) -> (Compressor, Vec<u8>, Vec<u8>) {
+    let n = (1usize << 20) + rng.range(1, 300_000) as usize;
+    let mut plain = vec![0u8; n];
+    rng.fill(&mut plain);
+    for b in plain.iter_mut() {
+        *b = b'a' + (*b % 26);
+    }
+    let mut p = crate::lz77::Lz77Params::random(rng);
+    p.literals_only = true;
+    p.block_tokens = usize::MAX / 2;
+    p.stored_every = 0;
+    p.empty_run = 0;
+    let raw = crate::lz77::encode(&plain, &p);
+    (Compressor::Lz77(p), plain, raw)
+}
